@@ -62,6 +62,12 @@ func runC15(c *core.Ctx) {
 	ensures(c, "C15-R1", ctrl+"UponDecided", "err=nil", []Req{
 		{"height-covers-decided", "or(height-covers-decided)", "after an accepted decided message for height h the controller height must be ≥ h on every path"},
 	})
+	// … and also on error exits taken AFTER the decided instance was recorded (a failed store write
+	// must not leave a learned-decided height startable)
+	nx := ensuresIf(c, "C15-R1", ctrl+"UponDecided", "any", "the decided message was validated", "ok("+cN+"ValidateDecided(p0.config, p2, p0.Share))", []Req{
+		{"height-covers-decided", "or(height-covers-decided)", "once a decided message is validated (and so recorded by one of the three branches), every exit — error exits included — leaves the controller height ≥ its height"},
+	})
+	c.Min("C15-R1", nx, 1, "exits of UponDecided after validation")
 	ensures(c, "C15-R1", ctrl+"LoadHighestInstance", "r0=nonnil,err=nil", []Req{
 		{"height-from-stored", "stored(p0.Height, " + cN + "Controller.getHighestInstance(p0, p1[:])#0.State.Height)", "after restart the controller resumes with the stored highest height"},
 		{"re-inserted", "called(" + cN + "InstanceContainer.addNewInstance(p0.StoredInstances, " + cN + "Controller.getHighestInstance(p0, p1[:])#0))", "the loaded instance must be put back so that its height counts as used"},
